@@ -40,7 +40,8 @@ def run_case(args):
     # must not differ between the engines, so that only storage-specific planning and layout do
     for t in tables:
         stmts.append((f"SET mock_rowcount_{t.name} = {len(t.rows)}", None))
-    g = QueryGen(rng, tables, FEATURES)
+    # (ORDER BY a primary key that is not selected determines the whole sequence only when keys are unique)
+    g = QueryGen(rng, tables, dict(FEATURES, order_hidden_pk=uniq))
     # interleave queries, deletes, further inserts and compaction passes
     for _ in range(nq):
         x = rng.random()
